@@ -400,7 +400,7 @@ BOUNDS = {
     'C01': ((6, 1500), (8, 12000), 4),
     'C02': ((6, 1500), (8, 12000), 4),
     'C05': ((6, 2000), (8, 15000), 4),
-    'C06': ((6, 800), (9, 25000), 5),
+    'C06': ((6, 800), (8, 10000), 4),
     'C07': ((6, 1500), (8, 12000), 4),
     'C15': ((5, 1200), (7, 10000), 4),
     'C16': ((5, 1200), (7, 10000), 4),
